@@ -151,7 +151,7 @@ SimFrame = _LazySimFrame()
 
 
 def take(u: dict, ids: list[int], *, container: str = "pandas", index: str = "rid", mutate: Optional[dict] = None, recat: Optional[int] = None,
-         keep_cols: Optional[list] = None) -> Any:
+         keep_cols: Optional[list] = None, int_as_float: bool = False) -> Any:
     """Build a data container holding universe rows ``ids`` (any subset / duplication / order).
 
     ``index``: 'rid' keeps row ids as labels (labels tied to content), 'range' gives a fresh RangeIndex,
@@ -162,6 +162,11 @@ def take(u: dict, ids: list[int], *, container: str = "pandas", index: str = "ri
     df = universe_frame(u).iloc[list(ids)].copy()
     if keep_cols is not None:
         df = df[[c for c in df.columns if c in set(keep_cols)]]  # the caller's frame only carries these columns
+    if int_as_float:
+        # the same whole numbers, read back as floats (e.g. from a CSV)
+        for name in df.columns:
+            if str(df[name].dtype) == "int64":
+                df[name] = df[name].astype("float64")
     if recat is not None:
         # same values, same set of categories, different *declared order* of every category-dtype column
         for name in df.columns:
@@ -302,6 +307,8 @@ def numeric_atoms(rng: random.Random, v: str, *, rich: bool = True) -> dict:
     elif kind in ("cr", "cs", "cc"):
         df_ = rng.randint(3, 5)
         extra = rng.choice(["", "", ", constraints='center'"])
+        if kind == "cc" and rng.random() < 0.35:
+            extra += ", lower_bound=0, upper_bound=2.5"  # a period shorter than the data range: values are wrapped
         a.update(expr=f"{kind}({n}, df={df_}{extra})", stateful=True)
     elif kind == "I":
         a.update(expr=rng.choice([f"I({n}**2)", f"I({n})", f"I({n} + 1)"]))
@@ -352,7 +359,9 @@ def user_context() -> dict:
 
     from formulaic.transforms import basis_spline, center, poly, scale
 
-    ft = types.SimpleNamespace(center=center, scale=scale, poly=poly, bs=basis_spline)
+    from formulaic.transforms.cubic_spline import cubic_spline
+
+    ft = types.SimpleNamespace(center=center, scale=scale, poly=poly, bs=basis_spline, cubic_spline=cubic_spline)
     return {"usr_center": usr_center, "usr_sq": (lambda x: x * x), "usr_offset": 1.5, "ft": ft}
 
 
@@ -461,6 +470,8 @@ def gen_formula(rng: random.Random, u: dict, *, rich: bool = True, structured_p:
 
 
 def spec_to_python(spec: Any) -> Any:
+    if isinstance(spec, dict) and "__set__" in spec:
+        return set(spec["__set__"])  # a builtin set is part of the public FormulaSpec alias
     if isinstance(spec, dict) and "__tuple__" in spec:
         return tuple(spec_to_python(s) for s in spec["__tuple__"])
     if isinstance(spec, dict):
